@@ -32,6 +32,7 @@ fn main() {
             let tier = report::tier_from_args(&args);
             let code = match id {
                 "C01" => checks::c01::run(&tier, &args),
+                "C09" => checks::c09::run(&tier, &args),
                 _ => { eprintln!("unknown property {id}"); 2 }
             };
             std::process::exit(code);
